@@ -401,5 +401,8 @@ def run(ck, facts):
 
     # ---------------- R10 strings written by Rust arrive whole (clauses of C12 on the runtime writer)
     import c12
-    sub3 = C.SubCheck(ck, "R10", "a string Rust writes through DiplomatWrite arrives whole whenever it fits: exact capacity test, bounded copy, len after copy, fixed writer reserves only the NUL byte (rules of C12)", ["R1", "R4", "R6"])
+    sub3 = C.SubCheck(ck, "R10", "a string Rust writes through DiplomatWrite arrives whole whenever it fits: exact capacity test, bounded copy, len after copy, fixed writer reserves only the NUL byte (rules of C12; every generated writer method flushes)", ["R1", "R4", "R6", "R7"])
     c12.run(sub3, facts)
+    # the C result record declares the payloads Rust returns: only zero-field structs are left out of the union (rule of C09.R5 on c::gen_result_ty)
+    import c09
+    c09.run(C.SubCheck(ck, "R3", "", ["R5"], key_re=r"^c::gen_result_ty/"), facts)
